@@ -175,6 +175,9 @@ def core_shapes():
         [n_eq1, k, E, kw_ if False else acall(["k"], "<func>rhs", [V("<t>"), V(Y)]), w, ymv],
     ] + [[g, assign(M, S(V(M), C(5))), E, ninc] for g in a if g["op"] == "if"] + [   # every guard form of the profile
         [assign(M, ["pow", ["pow", V(N), C(2)], C(3)]), ninc],            # a power as the base of a power
+        # last use of a user-type value inside a branch of a conditional expression inside a loop
+        [k, assign(Y, S(V(Y), P(V("<dt>"), ["if", CMP(">", V("i"), C(1)), V("k"), P(C(2), V("k"))])), loops=[["i", C(0), C(3)]]), yld],
+        [k, w, assign("w", S(V("w"), ["if", CMP("<", V("i"), C(1)), P(C(2), V("k")), V("k")]), loops=[["i", C(0), C(2)]]), ymv, yld],
         # user-type values inside a loop NEST: last use of k inside two loops, self-update of w inside two loops
         [k, w, assign("w", S(V("w"), P(V("j"), V("k"))), loops=[["i", C(0), C(2)], ["j", C(0), C(2)]]), ymv, yld],
         [k, assign(Y, S(V(Y), V("k")), loops=[["i", C(0), C(3)], ["j", C(0), C(2)]]), yld, ninc],
